@@ -75,6 +75,43 @@ def _names(node, ctx=None):
     return [n for n in ast.walk(node) if isinstance(n, ast.Name) and (ctx is None or isinstance(n.ctx, ctx))]
 
 
+def _append_loop_on(st, L):
+    """for ...: [if P:] L.append(E)"""
+    if not (isinstance(st, ast.For) and not st.orelse and len(st.body) == 1):
+        return False
+    b = st.body[0]
+    if isinstance(b, ast.If) and not b.orelse and len(b.body) == 1:
+        b = b.body[0]
+    return isinstance(b, ast.Expr) and isinstance(b.value, ast.Call) and isinstance(b.value.func, ast.Attribute) \
+        and b.value.func.attr == "append" and isinstance(b.value.func.value, ast.Name) and b.value.func.value.id == L
+
+
+def _free_name_ids(node):
+    """identifiers occurring in ``node``, not counting the variables that comprehensions bind for themselves"""
+    out = set()
+
+    def go(n, bound):
+        if isinstance(n, (ast.GeneratorExp, ast.ListComp, ast.SetComp, ast.DictComp)):
+            b2 = set(bound)
+            for k, g in enumerate(n.generators):
+                go(g.iter, b2 if k else bound)
+                b2 |= {t.id for t in ast.walk(g.target) if isinstance(t, ast.Name)}
+                for c in g.ifs:
+                    go(c, b2)
+            for fld in ("elt", "key", "value"):
+                if hasattr(n, fld):
+                    go(getattr(n, fld), b2)
+            return
+        if isinstance(n, ast.Name):
+            if n.id not in bound:
+                out.add(n.id)
+            return
+        for ch in ast.iter_child_nodes(n):
+            go(ch, bound)
+    go(node, frozenset())
+    return out
+
+
 def _has_call(node):
     return any(isinstance(n, (ast.Call, ast.Yield, ast.YieldFrom, ast.Await, ast.NamedExpr)) for n in ast.walk(node))
 
@@ -794,6 +831,17 @@ def _norm_simple(stmts, ctx):
                 (isinstance(st.value, ast.Call) and isinstance(st.value.func, ast.Name) and not st.value.args
                  and not st.value.keywords and st.value.func.id in _CTX.get("list_classes", ())))
             cond_ifs = []
+            if empty_list and len(st.targets) == 1 and isinstance(st.targets[0], ast.Name) and not ctx.get("final") \
+                    and nxt is not None and not _append_loop_on(nxt, st.targets[0].id):
+                # L = [] ; <statements that do not mention L> ; for ...: L.append(..)   : the empty list can be made later
+                j = i + 1
+                while j < len(stmts) and st.targets[0].id not in {n.id for n in _names(stmts[j])} \
+                        and not isinstance(stmts[j], FuncTypes + (ast.ClassDef,)):
+                    j += 1
+                if i + 1 < j < len(stmts) and _append_loop_on(stmts[j], st.targets[0].id):
+                    stmts = stmts[:i] + stmts[i + 1:j] + [st] + stmts[j:]
+                    changed = True
+                    continue
             if isinstance(st, ast.Assign) and empty_list and isinstance(nxt, ast.For) and not nxt.orelse \
                     and len(nxt.body) == 1 and isinstance(nxt.body[0], ast.If) and not nxt.body[0].orelse \
                     and len(nxt.body[0].body) == 1 and isinstance(nxt.body[0].body[0], ast.Expr) and not ctx.get("final"):
@@ -812,7 +860,7 @@ def _norm_simple(stmts, ctx):
                 L = st.targets[0].id
                 E = nxt.body[0].value.args[0]
                 tnames = {n.id for n in ast.walk(nxt.target) if isinstance(n, ast.Name)}
-                later_use = any(n.id in tnames for s_ in stmts[i + 2:] for n in _names(s_))
+                later_use = any(tnames & _free_name_ids(s_) for s_ in stmts[i + 2:])
                 if not _count_loads(E, L) and not _count_loads(nxt.iter, L) and not later_use \
                         and not any(isinstance(n, (ast.Yield, ast.YieldFrom)) for n in ast.walk(nxt)):
                     comp = ast.ListComp(elt=E, generators=[ast.comprehension(target=nxt.target, iter=nxt.iter, ifs=cond_ifs, is_async=0)])
